@@ -308,6 +308,8 @@ class TypedNode(Node):
             self._children = [node]
         elif before is True:  # prepend
             children.insert(0, node)
+        elif before is False:  # append (note that `False` is an `int`)
+            children.append(node)
         elif isinstance(before, int):
             children.insert(before, node)
         elif before:
